@@ -47,7 +47,9 @@ def jsonLabels (doc : JVal) (l : Labels) : Labels :=
   | .obj kvs => (leavesKvs [] kvs).1.foldl (fun acc pv => acc.set (pathLabel pv.1) pv.2) l
   | _ => l
 
-/-! ### `| json name="path"`: the scalar found by following the path -/
+/-! ### `| json name="path"`: the scalar found by following the path (the reading by lookup, one parameter at a
+    time in parameter order; it coincides with `jsonPathLabels` below when no two parameters share a name and the
+    document is read to the end: `Qryn.C09.jsonParams_distinct_is_lookup`) -/
 mutual
 def lookupPath : JVal → List PathSeg → Option Bytes
   | .str s, [] => some s
@@ -71,21 +73,71 @@ end
 def jsonParamLabels (params : List Ahead) (doc : JVal) (l : Labels) : Labels :=
   params.foldl (fun acc a => match lookupPath doc a.2 with | some v => acc.set a.1 v | none => acc) l
 
+/-! ### `| json n₁="path₁", n₂="path₂", …` in general: any number of parameters, names that repeat, names of
+    stream labels. Every scalar of the document has an address (the object keys and array indexes leading to it);
+    going through the scalars in document order, a scalar whose address is the path of a parameter gives that
+    parameter's label its value (an existing label of that name is overwritten; for several parameters with that
+    path, in parameter order). So a label named by several parameters, or addressed through a key that occurs
+    twice, ends with the value that comes last in the document. On a document the decoder cannot read to the end,
+    only the scalars before the failure point count. -/
+mutual
+def pleavesVal : JVal → List (List PathSeg × Bytes) × Bool
+  | .obj kvs => pleavesKvs kvs
+  | .arr xs => pleavesArr 0 xs
+  | .str s => ([([], s)], true)
+  | .raw t => ([([], t)], true)
+  | .bad => ([], false)
+def pleavesKvs : JKvs → List (List PathSeg × Bytes) × Bool
+  | .nil => ([], true)
+  | .cons k v rest =>
+    let r := pleavesVal v
+    let here := r.1.map (fun pv => (PathSeg.key k :: pv.1, pv.2))
+    if r.2 then
+      let r' := pleavesKvs rest
+      (here ++ r'.1, r'.2)
+    else (here, false)
+def pleavesArr (i : Nat) : JList → List (List PathSeg × Bytes) × Bool
+  | .nil => ([], true)
+  | .cons v rest =>
+    let r := pleavesVal v
+    let here := r.1.map (fun pv => (PathSeg.idx i :: pv.1, pv.2))
+    if r.2 then
+      let r' := pleavesArr (i + 1) rest
+      (here ++ r'.1, r'.2)
+    else (here, false)
+end
+
+/-- one scalar `pv = (address, value)`: every parameter whose path is that address gets the value -/
+def setMatching (params : List Ahead) (acc : Labels) (pv : List PathSeg × Bytes) : Labels :=
+  params.foldl (fun acc a => if a.2 = pv.1 then acc.set a.1 pv.2 else acc) acc
+
+def jsonPathLabels (params : List Ahead) (doc : JVal) (l : Labels) : Labels :=
+  (pleavesVal doc).1.foldl (setMatching params) l
+
 /-! ### `| logfmt` -/
 def logfmtLabels (pairs : List (Bytes × Bytes)) (l : Labels) : Labels :=
   pairs.foldl (fun acc kv => acc.set (sanitizeLabel kv.1) kv.2) l
 
-def logfmtParamLabels (fields : List (Bytes × Bytes)) (pairs : List (Bytes × Bytes)) (l : Labels) : Labels :=
-  pairs.foldl (fun acc kv => match fields.lookup kv.1 with
+/-- `| logfmt n₁="k₁", …`: the label a logfmt key is extracted to — the name of the last parameter whose
+    expression starts with that key (Loki picks one of them; expressions starting with an index name no key) -/
+def fieldParam : List Ahead → Bytes → Option Bytes
+  | [], _ => none
+  | a :: rest, k =>
+    match fieldParam rest k with
+    | some n => some n
+    | none => if a.2.head? = some (.key k) then some a.1 else none
+
+def logfmtParamLabels (params : List Ahead) (pairs : List (Bytes × Bytes)) (l : Labels) : Labels :=
+  pairs.foldl (fun acc kv => match fieldParam params kv.1 with
     | some name => if name.isEmpty then acc else acc.set name kv.2
     | none => acc) l
 
 def parserLabels (E : Env V) (k : ParserKind) (msg : Bytes) (l : Labels) : Labels :=
   match k with
   | .json => jsonLabels (E.jsonDecode msg) l
-  | .jsonParams ps => jsonParamLabels ps (E.jsonDecode msg) l
+  | .jsonParams ps => jsonPathLabels ps (E.jsonDecode msg) l
   | .logfmt => logfmtLabels (E.logfmtDecode msg) l
-  | .logfmtParams fs => logfmtParamLabels fs (E.logfmtDecode msg) l
+  | .logfmtParams ps => logfmtParamLabels ps (E.logfmtDecode msg) l
 
 def parserStage (E : Env V) (k : ParserKind) (es : List (Entry V)) : List (Entry V) :=
   es.map (fun e => relabel E e (parserLabels E k e.msg e.labels))
